@@ -18,6 +18,7 @@ import YorkieModel.Driver.ProtoEngine
 import YorkieModel.Driver.FDocEngine
 import YorkieModel.Driver.JsonEngine
 import YorkieModel.Driver.PubSubEngine
+import YorkieModel.Driver.WatchEngine
 import YorkieModel.Driver.TreeEngine
 import YorkieModel.Driver.ConcEngine
 import YorkieModel.Driver.SrvEngine
@@ -48,7 +49,7 @@ def engines : List (String × Engine) := [
   ("presence", PresenceEngine.engine),
   ("proto", ProtoEngine.engine),
   ("fdoc", FDocEngine.engine), ("json", JsonEngine.engine),
-  ("pubsub", PubSubEngine.engine), ("pubsubstress", PubSubEngine.engine), ("tree", TreeEngine.engine), ("conc", ConcEngine.engine), ("srv", SrvEngine.engine),
+  ("pubsub", PubSubEngine.engine), ("pubsubstress", PubSubEngine.engine), ("watch", WatchEngine.engine), ("tree", TreeEngine.engine), ("conc", ConcEngine.engine), ("srv", SrvEngine.engine),
   ("compact", ProtoEngine.X.engine), ("faults", ProtoEngine.X.engine), ("undo", UndoEngine.engine),
   ("textundo", TextUndoEngine.engine), ("treeundo", TreeUndoEngine.engine), ("locker", LockerEngine.engine)
 ]
